@@ -103,6 +103,7 @@ pub fn classify_meta(path: &Path, version: &str, hash: &str) -> String {
         (Some(a), Some(b)) if a == version && b == hash => "Current".into(),
         (Some(a), Some(_)) if a != version => "OtherVersion".into(),
         (Some(_), Some(_)) => "OtherHash".into(),
+        (Some(a), None) if a == version && v.is_object() => "NoHash".into(),
         _ => "Garbage".into(),
     }
 }
@@ -288,6 +289,15 @@ fn run_vector(ctx: &Ctx, i: usize, vec: &Value, docs_model: u64) -> Value {
                             _ => b"[1, 2, 3]",
                         };
                         std::fs::write(&meta_path, g).unwrap();
+                    }
+                    "meta_NoHash" => {
+                        // this build's version, the data hash lost: absent or null
+                        let g = if i % 2 == 0 {
+                            json!({"version": ctx.version})
+                        } else {
+                            json!({"version": ctx.version, "database_hash": null})
+                        };
+                        std::fs::write(&meta_path, serde_json::to_vec(&g).unwrap()).unwrap();
                     }
                     "idx_Absent" => {
                         let _ = std::fs::remove_dir_all(&index_path);
